@@ -31,11 +31,12 @@ const (
 	ViaPkg    = 0 // package-level Render / RenderTo
 	ViaFresh  = 1 // a wrapper made for this step
 	ViaReused = 2 // a wrapper kept by the world across steps
-	ViaAuto   = 3 // auto.Render / auto.RenderTo with the matching style string
-	NVia      = 4
+	ViaAuto   = 3 // auto.Wrap(t, style) and the wrapper's methods
+	ViaAutoFn = 4 // the package-level auto.Render / auto.RenderTo functions
+	NVia      = 5
 )
 
-var viaNames = []string{"pkg", "fresh", "reused", "auto"}
+var viaNames = []string{"pkg", "fresh", "reused", "auto", "autofn"}
 
 // RenderSpec selects one of the ways a caller can render the table.
 type RenderSpec struct {
@@ -119,6 +120,8 @@ func (w *World) wrapperFor(spec RenderSpec) (renderer, bool) {
 		return nil, false
 	case ViaAuto:
 		return auto.Wrap(t, w.autoStyle(spec)), true
+	case ViaAutoFn:
+		return nil, false
 	case ViaReused:
 		switch spec.Format % NFormats {
 		case FmtText:
@@ -209,6 +212,9 @@ func (w *World) autoStyle(spec RenderSpec) string {
 	if name == "custom" {
 		name = decoration.D_UTF8_HEAVY
 	}
+	if spec.Flags&2 != 0 && name == decoration.D_UTF8_HEAVY {
+		return "texttable" // the default decoration, selected by the bare package name
+	}
 	if spec.Flags&1 != 0 {
 		return "texttable." + name
 	}
@@ -244,6 +250,14 @@ func (w *World) Render(spec RenderSpec, sw io.Writer) (out string, err error, pi
 			err = rr.RenderTo(sw)
 		} else {
 			out, err = rr.Render()
+		}
+		return
+	}
+	if spec.Via%NVia == ViaAutoFn {
+		if spec.ToWriter {
+			err = auto.RenderTo(t, sw, w.autoStyle(spec))
+		} else {
+			out, err = auto.Render(t, w.autoStyle(spec))
 		}
 		return
 	}
@@ -290,8 +304,12 @@ func AllRenderSpecs() []RenderSpec {
 					out = append(out, RenderSpec{Format: f, Via: via, Deco: 3})
 					continue
 				}
+				if via == ViaAutoFn {
+					out = append(out, RenderSpec{Format: f, Via: via, Deco: 3, Flags: 2}, RenderSpec{Format: f, Via: via, Deco: 0})
+					continue
+				}
 				for d := 0; d < NDecoChoices; d++ {
-					if via == ViaAuto && DecoName(d) == "custom" {
+					if (via == ViaAuto || via == ViaAutoFn) && DecoName(d) == "custom" {
 						continue
 					}
 					out = append(out, RenderSpec{Format: f, Via: via, Deco: d, Flags: d & 1})
